@@ -13,5 +13,8 @@ let dispatch = function
       let (t, ((a, b), c)) = run_pd cx cy in ps "["; p_bool t; ps ","; p_ql a; ps ","; p_ql b; ps ","; p_ql c; ps "]"
   | "ci2ls" -> let ci = next_list next_z in p_list (p_list p_nat) (run_ci2ls ci)
   | "ls2ci" -> let ls = next_mat next_nat in p_list p_nat (run_ls2ci ls)
+  | "dcs" -> let w = next_mat next_q in let ci = next_list next_z in p_pair (p_mat p_q) (p_mat p_q) (run_dcs w ci)
+  | "gw" -> let w = next_mat next_q in let ci = next_list next_z in p_opt (p_pair p_ql p_ql) (run_gw w ci)
+  | "gwr" -> let w = next_mat next_q in let ci = next_list next_z in p_pair p_ql p_ql (run_gw_repaired w ci)
   | f -> failwith ("unknown function " ^ f)
 let () = main dispatch
